@@ -101,6 +101,313 @@ def covered_flags(ctx, scns, name):
     return [o if cached_ids_coherent(s) else "0" * len(o) for s, o in zip(scns, outs)]
 
 
+# ----------------------------------------------------------------------------- cache entry points
+# The scenario language builds every dataset with cache=<one recording MemoryCache instance per dataset> and every
+# cached node with cached(x, <instance>).  labrea offers other PUBLIC ways to say "this dataset / node is cached (or
+# not)", all of which fall under the property (the model is the same: one cache per dataset / node):
+#   dataset(f, cache=<callable returning a Cache>), a configured factory kept and REUSED for several datasets
+#   (memo = dataset(cache=<callable>); memo(f1); memo(g, dispatch=...); memo(options=...)(h); memo.where(...)(k)),
+#   ds.set_cache(<instance> | <callable>), dataset.nocache (used once / kept and reused), cache=NoCache (the class),
+#   cached(<instance>)(x) (decorator form) - built with recording caches, so they go through the correspondence;
+#   and @dataset without cache=, cache=MemoryCache (the class itself), a reused dataset(cache=MemoryCache),
+#   set_cache(MemoryCache), cached(x) - there labrea creates the cache itself, nothing is recorded: the transparency
+#   oracle applies as it stands, the correspondence compares values / failures / body calls (cache events left out).
+# A dataset description carries its entry point in env[dsid]["entry"] (+ "flavour": how the callable is spelled);
+# cached nodes in env["cached_entry"][cid].  Descriptions without these keys are built exactly as before.
+
+RECORDED_ENTRIES = ("instance", "callable", "factory", "factory", "factory_kw", "factory_where", "factory_derived", "set_cache_instance",
+                    "set_cache_callable", "nocache_then_set")
+UNRECORDED_ENTRIES = ("bare", "class", "factory_class", "factory_class", "set_cache_class")
+NOCACHE_ENTRIES = ("nocache_instance", "nocache_prop", "nocache_factory", "nocache_class", "nocache_set")
+FLAVOURS = ("function", "lambda", "partial", "class", "method")
+
+
+def entry_builder_class(base):
+    class EntryBuilder(base):
+        """core.Builder, except that a dataset / cached node whose description names an entry point is created through
+        that entry point of labrea's public API"""
+
+        def __init__(self, world, env):
+            super().__init__(world, env)
+            self.current = None         # the dataset being created (whom a cache made by a callable belongs to)
+            self.factories = {}
+            self.callables = {}
+            self.orphans = 0
+
+        def cache_for_current(self):
+            if self.current is None:    # a callable invoked outside the creation of a dataset: nobody's cache
+                self.orphans += 1
+                return self.w.cache(9000 + self.orphans)
+            return self.w.cache(self.current)
+
+        def callable_cache(self, flavour):
+            """ONE callable object per spelling, handed to every dataset / factory / set_cache of the scenario that uses it"""
+            if flavour not in self.callables:
+                self.callables[flavour] = self.new_callable(flavour)
+            return self.callables[flavour]
+
+        def new_callable(self, flavour):
+            import functools
+            make = self.cache_for_current
+            if flavour == "function":
+                def new_cache():
+                    return make()
+                return new_cache
+            if flavour == "lambda":
+                return lambda: make()
+            if flavour == "partial":
+                return functools.partial(lambda tag: make(), "tag")
+            if flavour == "class":
+                return type("PerDatasetCache", (), {"__new__": staticmethod(lambda cls: make())})
+            return self.cache_for_current       # a bound method
+
+        def factory(self, key, cache):
+            from labrea import dataset
+            if key not in self.factories:
+                self.factories[key] = dataset(cache=cache)
+            return self.factories[key]
+
+        def dataset(self, dsid):
+            d = self.env.get(dsid) if dsid not in self.ds else None
+            if d is None or d.get("entry") is None or d.get("derived") is not None:
+                return super().dataset(dsid)
+            from labrea import dataset, abstractdataset
+            from labrea.cache import MemoryCache, NoCache
+            entry, flavour = d["entry"], d.get("flavour", "function")
+            kwargs = d.get("kwargs", [])
+            kw = {}                                   # as in core.Builder.dataset
+            if d.get("dispatch") is not None:
+                kw["dispatch"] = self.build(d["dispatch"])
+            if d.get("options"):
+                kw["options"] = core.py_json(d["options"])
+            if d.get("default_options"):
+                kw["default_options"] = core.py_json(d["default_options"])
+            if d.get("callback") is not None:
+                kw["callback"] = self.build(d["callback"])
+            if d.get("effects"):
+                kw["effects"] = [self.build(e) for e in d["effects"]]
+            if d.get("abstract"):
+                def f():
+                    pass
+                kw["abstract"] = True
+            else:
+                f = self.w.kwfn(d["fid"], len(kwargs))
+                kw["defaults"] = {f"a{i}": self.build(e) for i, e in enumerate(kwargs)}
+            f.__name__ = f.__qualname__ = f"ds{dsid}"
+            mem = d.get("cache", "mem") == "mem"
+            assert mem == (entry not in NOCACHE_ENTRIES), (entry, d.get("cache"))
+            self.current = dsid
+            try:
+                if entry == "instance":
+                    obj = dataset(f, cache=self.w.cache(dsid), **kw)
+                elif entry == "callable":
+                    obj = dataset(f, cache=self.callable_cache(flavour), **kw)
+                elif entry in ("factory", "factory_kw", "factory_where", "factory_derived", "factory_class"):
+                    self.current = None
+                    memo = self.factory((entry == "factory_class", flavour),
+                                        MemoryCache if entry == "factory_class" else self.callable_cache(flavour))
+                    if entry == "factory_derived":      # a factory derived from the configured one, itself kept and reused
+                        if ("derived", flavour) not in self.factories:
+                            self.factories[("derived", flavour)] = memo().where()
+                        memo = self.factories[("derived", flavour)]
+                    self.current = dsid
+                    if entry == "factory_kw":
+                        obj = memo(**kw)(f)
+                    elif entry == "factory_where" and kw.get("defaults"):
+                        obj = memo.where(**kw.pop("defaults"))(f, **kw)
+                    else:
+                        obj = memo(f, **kw)
+                elif entry == "set_cache_instance":
+                    obj = dataset(f, **kw)
+                    obj.set_cache(self.w.cache(dsid))
+                elif entry == "set_cache_callable":
+                    obj = dataset(f, **kw)
+                    obj.set_cache(self.callable_cache(flavour))
+                elif entry == "nocache_then_set":
+                    obj = dataset.nocache(f, **kw)
+                    obj.set_cache(self.callable_cache(flavour) if flavour != "method" else self.w.cache(dsid))
+                elif entry == "bare":
+                    obj = dataset(f, **kw)
+                elif entry == "class":
+                    obj = dataset(f, cache=MemoryCache, **kw)
+                elif entry == "set_cache_class":
+                    obj = dataset(f, cache=NoCache(), **kw)
+                    obj.set_cache(MemoryCache)
+                elif entry == "nocache_instance":
+                    obj = dataset(f, cache=NoCache(), **kw)
+                elif entry == "nocache_prop":
+                    obj = dataset.nocache(f, **kw)
+                elif entry == "nocache_factory":
+                    self.current = None
+                    if "nocache" not in self.factories:
+                        self.factories["nocache"] = dataset.nocache
+                    self.current = dsid
+                    obj = self.factories["nocache"](f, **kw)
+                elif entry == "nocache_class":
+                    obj = dataset(f, cache=NoCache, **kw)
+                elif entry == "nocache_set":
+                    obj = dataset(f, **kw)
+                    obj.set_cache(NoCache if flavour in ("class", "function") else NoCache())
+                else:
+                    raise TypeError(entry)
+            finally:
+                self.current = None
+            self.ds[dsid] = obj
+            for alias, impl in d.get("overloads", []):
+                obj.register(core.py_value(alias), self.build(impl))
+            if d.get("effects_disabled"):
+                obj.disable_effects()
+            return obj
+
+        def build(self, e):
+            if e[0] == "cached" and e[1] is not None and isinstance(self.env.get("cached_entry"), dict):
+                how = self.env["cached_entry"].get(e[1])
+                if how == "decorator":
+                    return self.L.cached(self.w.cache(e[1]))(self.build(e[2]))
+                if how == "default":
+                    return self.L.cached(self.build(e[2]))
+                if how == "bare_decorator":
+                    from labrea.cache import cached
+                    return cached(self.build(e[2]))
+            return super().build(e)
+    return EntryBuilder
+
+
+class entry_points:
+    """while active, core.run_impl (and everything built on it: fresh copies, the oracle) creates datasets and cached nodes
+    through the entry point their description names"""
+
+    def __enter__(self):
+        self.orig = core.Builder
+        core.Builder = entry_builder_class(self.orig)
+
+    def __exit__(self, *a):
+        core.Builder = self.orig
+
+
+def assign_entries(rng, scn, recorded, uniform=None):
+    """name an entry point for every dataset and cached node of a scenario (in place)"""
+    pool = RECORDED_ENTRIES if recorded else UNRECORDED_ENTRIES + RECORDED_ENTRIES[:2]
+    flav = rng.choice(FLAVOURS)
+    for i, d in scn["env"].items():
+        if not isinstance(i, int) or d.get("derived") is not None:
+            continue
+        if d.get("cache", "mem") != "mem":
+            d["entry"] = rng.choice(NOCACHE_ENTRIES)
+        else:
+            d["entry"] = uniform if uniform is not None and rng.random() < 0.8 else rng.choice(pool)
+        d["flavour"] = flav if rng.random() < 0.8 else rng.choice(FLAVOURS)
+    cids = sorted({t[1] for t in list(cp.sub_exprs(scn["exprs"])) + list(cp.sub_exprs([v for k, v in scn["env"].items() if isinstance(k, int)]))
+                   if t and t[0] == "cached" and t[1] is not None})
+    if cids:
+        scn["env"]["cached_entry"] = {c: rng.choice(["arg", "decorator"] if recorded else ["default", "default", "bare_decorator", "arg"]) for c in cids}
+    if not recorded:
+        scn["unrecorded"] = True
+    return scn
+
+
+def entry_siblings(rng, recorded):
+    """2-4 datasets (and, sometimes, 2 cached nodes) that read THE SAME options - so their fingerprints coincide - with
+    different bodies, created through one entry point (mostly one reused configured factory), sometimes below a common
+    consumer; histories that ask one sibling, then another, under the same dictionary"""
+    from gen import K, FLAT, SEC, SX
+    from core import lit
+    g = gen.Gen(rng, with_failing=False)
+    X, Y, Z = FLAT
+    reads = rng.choice([
+        [("option", K(X), None, None)],
+        [("option", K(X), None, None), ("option", K(Y), ("value", ("j", 0)), None)],
+        [("option", K(SEC, SX), None, None)],
+        [("option", K(X), ("option", K(Y), ("value", ("j", 1)), None), None)],
+        [("switch", ("option", K(X), None, None), [(("j", 1), ("option", K(Y), ("value", ("j", 0)), None))], ("value", ("j", lit("d"))))],
+        [],
+    ])
+    k = rng.randint(2, 4)
+    env = {}
+    for i in range(1, k + 1):
+        kwargs = list(reads) if rng.random() < 0.85 else [("option", K(rng.choice([X, Y])), ("value", ("j", 0)), None)]
+        if rng.random() < 0.3:
+            kwargs = list(reversed(kwargs))
+        d = dict(fid=g.newf(("const", ("j", rng.choice([None, 0, lit("c%d" % i)]))) if rng.random() < 0.15 else ("tag",)), kwargs=kwargs)
+        r = rng.random()
+        if r < 0.15:
+            d["callback"] = ("pstep", g.newf(("tag",)), [])
+        elif r < 0.3:
+            d["effects"] = [("pstep", g.newf(("tag",)), [])]
+        elif r < 0.4:
+            d["dispatch"] = ("option", K(Z), ("value", ("j", 0)), None)
+            d["overloads"] = [(("j", 1), ("call", g.newf(("tag",)), list(reads)))]
+        elif r < 0.5:
+            d["options"] = {Z: 1}
+        elif r < 0.55:
+            d["abstract"] = True
+            d["dispatch"] = ("option", K(Z), ("value", ("j", 0)), None)
+            d["overloads"] = [(("j", 0), ("call", g.newf(("tag",)), list(reads)))]
+        if rng.random() < 0.1:
+            d["cache"] = "none"
+        env[i] = d
+    roots = [("dataset", i) for i in range(1, k + 1)]
+    if rng.random() < 0.5:
+        env[k + 1] = dict(fid=g.newf(("tag",)), kwargs=[("dataset", i) for i in rng.sample(range(1, k + 1), rng.randint(2, k))])
+        roots.append(("dataset", k + 1))
+    if rng.random() < 0.4:
+        for c in (70, 71):
+            roots.append(("cached", c, ("call", g.newf(("tag",)), list(reads))))
+    if rng.random() < 0.25:     # a derivative shares its dataset's cache by design: same body, pre-set options in the fingerprint's dictionary
+        env[k + 2] = dict(derived=rng.randint(1, k), how=rng.choice(["with_options", "with_default_options"]), preset={Y: 5})
+        roots.append(("dataset", k + 2))
+    base = {X: 1, Y: 2, SEC: {SX: 1}}
+    pool = [base, {**base, X: 2}, {X: 1}, {**base, Y: 0}, {**base, SEC: {SX: 2}}, {**base, Z: 1}, {}]
+    ops = []
+    while len(ops) < 12:
+        o = rng.choice(pool)
+        for i in rng.sample(range(len(roots)), min(len(roots), rng.randint(2, 3))):     # the same dictionary to several siblings in a row
+            ops.append((rng.choice(("evaluate",) * 6 + ("keys", "validate")), i, False, False, dict(o)))
+    scn = dict(ftable=dict(g.ftable), env=env, exprs=roots, ops=ops[:14])
+    uniform = rng.choice(["factory", "factory", "factory_kw", "factory_where", "factory_derived", "callable", "set_cache_callable"] if recorded
+                         else ["factory_class", "factory_class", "class", "bare", "set_cache_class"])
+    return assign_entries(rng, scn, recorded, uniform)
+
+
+def entry_scenarios(ctx, recorded):
+    rng = ctx.rng
+    n_sib, n_gen = ((70, 40) if recorded else (50, 30)) if ctx.quick else ((700, 400) if recorded else (500, 300))
+    out = [entry_siblings(rng, recorded) for _ in range(n_sib)]
+    for i in range(n_gen):
+        g = gen.Gen(rng, preset_on_ds=0.3 if i % 2 else 0.0)
+        s = g.scenario(n_exprs=2, depth=3, n_ops=12, methods=("evaluate",) * 8 + ("keys", "validate", "explain"))
+        out.append(assign_entries(rng, s, recorded))
+    return out
+
+
+CACHE_EVENT = __import__("re").compile(r"^(ex|get|set)\d+[TF]?$")
+
+
+def without_cache_events(line):
+    res, ev = cp.split(line)
+    return res + "|" + " ".join(t for t in ev if not CACHE_EVENT.match(t))
+
+
+def unrecorded_correspondence(ctx, scns, name):
+    """scenarios whose caches labrea creates itself: values / failures / body, callback, effect and log events are compared,
+    the model's cache events are left out (ghost events kept for the zone tagging)"""
+    impls = [[without_cache_events(l) for l in core.run_impl(s)] for s in scns]      # (some datasets of these scenarios do record)
+    outs = ctx.coq_eval(name, cp.REQ, "", [core.coq_scenario(s) for s in scns], shard=30)
+    models = [[without_cache_events(l) for l in o.split(" ## ")] for o in outs]
+    mism, ops = [], 0
+    for s, il, ml in zip(scns, impls, models):
+        ops += len(il)
+        multi = cp._multi_ref(s["exprs"]) or cp._multi_ref(s["env"]) or cp._multi_ref([op[4] for op in s["ops"]])
+        for oi, (a, b) in enumerate(zip(il, ml)):
+            if not cp.same(a, b, multi):
+                mism.append(dict(where="Model/Eval.v vs labrea (caches created by labrea: cache events not compared)", op_index=oi,
+                                 op=repr(s["ops"][oi]), impl=a, model=cp.strip_ghost(b), scenario_repr=cp.dump_scn(s)))
+                break
+            if "unmod" in cp.split(cp.strip_ghost(b))[0]:
+                break
+    return impls, models, mism, ops
+
+
 def generate(ctx, n):
     scns = []
     for i in range(n):
@@ -172,10 +479,21 @@ def directed(ctx, n):
 
 
 def run(ctx):
+    with entry_points():
+        return run_(ctx)
+
+
+def run_(ctx):
     n = 2000 if ctx.quick else 12000
     corpus = corpus_for(PID)
     scns = [s for _, s in corpus] + generate(ctx, n) + directed(ctx, 160 if ctx.quick else 1600)
+    by_entry = entry_scenarios(ctx, recorded=True)      # (generated after the older streams: those stay what they were for every seed)
+    scns = scns + by_entry
     impls, models, mism, stats = cp.correspondence(ctx, scns, "Cases_C01")
+    unrec = entry_scenarios(ctx, recorded=False)
+    u_impls, u_models, u_mism, u_ops = unrecorded_correspondence(ctx, unrec, "Unrecorded_C01")
+    scns, impls, models, mism = scns + unrec, impls + u_impls, models + u_models, mism + u_mism
+    stats["ops"] += u_ops
     violations, distinct, oracle_checks, tagged = [], set(), 0, {}
     # the theorem's hypotheses, evaluated by the model on what was generated; inside them the
     # theorem's conclusion is applied to the implementation as a STRICT oracle (same value, or the
@@ -192,7 +510,14 @@ def run(ctx):
                 cov["strict_checks"] += 1
                 if any(t.startswith("get") and t.endswith("T") for t in cp.split(line)[1]):
                     cov["covered_with_hit"] += 1
-                if cp.split(line)[0] != cp.split(fresh)[0]:
+                a, b = cp.split(line)[0], cp.split(fresh)[0]
+                if a != b and a.startswith("err:key(") and b.startswith("err:key(") and (
+                        cp._multi_ref(scn["exprs"]) or cp._multi_ref(scn["env"]) or cp._multi_ref([x[4] for x in scn["ops"]])):
+                    # several references of one template are missing: WHICH one is named depends on the order in which Python
+                    # walks them (the fingerprint computation names one, the cache-free evaluation another) - the tolerance
+                    # the correspondence applies to the same situation (coreprop.same)
+                    a, b = cp.KEYRE.sub("key(*)", a), cp.KEYRE.sub("key(*)", b)
+                if a != b:
                     violations.append(dict(desc="inside the hypotheses of C01_history_transparent (computed by the model) an operation on the "
                                                 "long-lived graph differs from the cache-free operation on a fresh copy",
                                            op_index=j, cached=cp.split(line)[0], uncached=cp.split(fresh)[0], finding=None,
@@ -227,7 +552,10 @@ def run(ctx):
         "distinct_nontrivial": len(distinct),
         "rule": "random expression graphs (datasets with overloads/pre-set/default options/callbacks, options with defaults and templated values, "
                 "apply, bind, switch, case, coalesce, collections, Map, Template, WithOptions, cached) x histories of 12 operations over a pool of "
-                "adversarially perturbed dictionaries on one long-lived graph; non-trivial = the history contains at least one cache hit; distinct by "
+                "adversarially perturbed dictionaries on one long-lived graph; plus datasets / cached nodes created through labrea's other public "
+                "cache entry points (cache=<callable>, a reused configured factory, set_cache, dataset.nocache, cache=NoCache, cached(<cache>)(x); "
+                "and, with caches labrea creates itself: @dataset, cache=MemoryCache, a reused dataset(cache=MemoryCache), set_cache(MemoryCache), "
+                "cached(x)), in particular siblings reading the same options; non-trivial = the history contains at least one cache hit; distinct by "
                 "hash of the scenario",
         "samples": [dict(exprs=repr(s["exprs"])[:400], first_ops=[repr(o)[:160] for o in s["ops"][:3]], observed=il[:3]) for s, il in list(zip(scns, impls))[:3]],
         "traces_validated_against_impl": stats["ops"],
@@ -235,7 +563,8 @@ def run(ctx):
         "violations": violations,
         "known": known,
         "distribution": dict(stats, oracle_checks=oracle_checks, oracle_failures_tagged=tagged, scenarios=len(scns),
-                             theorem_hypotheses=cov),
+                             theorem_hypotheses=cov, entry_point_scenarios=dict(recording_caches=len(by_entry), caches_created_by_labrea=len(unrec)),
+                             entry_points=entry_histogram(by_entry + unrec)),
         "exhaustive": False,
         "assumptions": ["user code is deterministic; cyclic template references excluded; floats not generated",
                         "failure comparison is by failing/succeeding (which of several causes surfaces first legitimately differs when the fingerprint is computed first)"],
@@ -243,9 +572,25 @@ def run(ctx):
     }
 
 
+def entry_histogram(scns):
+    h = {}
+    for s in scns:
+        for k, d in s["env"].items():
+            for e in ([d["entry"]] if isinstance(k, int) and d.get("entry") else list(d.values()) if k == "cached_entry" else []):
+                h[e] = h.get(e, 0) + 1
+    return h
+
+
 def replay(ctx, payload):
+    with entry_points():
+        return replay_(ctx, payload)
+
+
+def replay_(ctx, payload):
     scn = cp.load_scn(payload["scenario_repr"])
     il = core.run_impl(scn)
     f = transparency_failures(scn)
     ml = ctx.coq_eval("Replay_C01", cp.REQ, "", [core.coq_scenario(scn)])[0].split(" ## ")
+    if scn.get("unrecorded"):       # caches created by labrea itself: no cache events on the implementation's side
+        il, ml = [without_cache_events(l) for l in il], [without_cache_events(l) for l in ml]
     return bool(f) or not cp.agrees(il, ml, scn), dict(oracle_failures=f, impl=il, model=[cp.strip_ghost(x) for x in ml])
